@@ -317,7 +317,7 @@ class FlowFields(ImageBatch):
                 data = U.move_dim(data, 1, -1)
                 data = torch.cat(
                     [
-                        grid_transform_vectors(v, grid, axes, to_grid, axes).unsqueeze_(0)
+                        grid_transform_vectors(v, grid, axes, to_grid, axes).unsqueeze(0)
                         for v, grid, to_grid in zip(data, self._grid, flow.grids())
                     ],
                     dim=0,
